@@ -59,11 +59,17 @@ func positions(o geojson.Object) (all, occupied []geometry.Point, ok bool) {
 		p := v.Base()
 		ext := series(p.Exterior)
 		all = append(all, ext...)
-		for _, h := range p.Holes {
-			all = append(all, series(h)...)
-		}
 		if len(ext) >= 3 {
-			occupied = all
+			occupied = append(occupied, ext...)
+		}
+		for _, h := range p.Holes {
+			hp := series(h)
+			all = append(all, hp...)
+			// a ring of fewer than three positions is not a part that occupies
+			// space: its positions count for validity, not for the rectangle
+			if len(ext) >= 3 && len(hp) >= 3 {
+				occupied = append(occupied, hp...)
+			}
 		}
 	case *geojson.Rect:
 		r := v.Base()
@@ -214,6 +220,13 @@ func c11Objects(ps []geometry.Point) []geojson.Object {
 				forced = append(forced, geojson.NewMultiLineString([]*geometry.Line{newLineScribbled(ps[1:2], fo), newLineScribbled(ps, fo)}))
 			}
 		}
+	}
+	// polygons with holes of one and two positions (they cut nothing out, but their positions count)
+	if len(ps) >= 2 {
+		sq := []geometry.Point{{X: -1, Y: -1}, {X: 1, Y: -1}, {X: 1, Y: 1}, {X: -1, Y: 1}, {X: -1, Y: -1}}
+		forced = append(forced, geojson.NewPolygon(newPolyScribbled(sq, [][]geometry.Point{ps[:1]}, nil)))
+		forced = append(forced, geojson.NewPolygon(newPolyScribbled(sq, [][]geometry.Point{ps[:2], ps[len(ps)-1:]}, nil)))
+		forced = append(forced, geojson.NewMultiPolygon([]*geometry.Poly{newPolyScribbled(sq, [][]geometry.Point{ps[1:2]}, nil)}))
 	}
 	// objects derived from other objects: translated copies (appended last:
 	// known findings refer to objects by index)
